@@ -35,6 +35,9 @@ CLAIMS = {
  "C12": ("path-sensitive linear bounds prover over SSA (index/slice/make obligations) with overflow side conditions, second pass GOARCH=386 in the thorough tier",
          "Decides the decoding half: every index and slice expression of the length-encoded decoders in mysql/encoding.go is proven in bounds from dominating comparisons for all inputs (any data, any pos >= 0, any size). The round-trip half is value equality and not covered.",
          "Preconditions 0 <= pos <= 2^62 and len(data) <= 2^62; prover is sound but incomplete (unproven = reported).", "§4 C12"),
+ "C13": ("writer/reader table extraction from SSA (body selected by `type == K` for every Type* constant of package mysql, classified by what it appends / how it advances) and agreement of the two tables (mysql.AppendBinaryValue vs RowData.ParseBinary)",
+         "Decides only the wire class per column type (1/2/4/8 fixed bytes, length-encoded string, self-length-prefixed temporal): a value written without the length prefix its reader expects, or with another width, shifts every later column. NOT decided: the value conversion itself (signedness, float precision, dates/times, decimals), the NULL-bitmap arithmetic, types only one of the two tables knows (listed as info).",
+         "The repository's own binary-row reader (used for backend rows) is taken as the reference for the wire class of a type; for the classes involved it coincides with the MySQL protocol documentation.", "§9 C13"),
  "C14": ("def-use provenance of CalcParams' results (offsets = result of a package-parser function, count = len of it, pieces cut at its elements) + edge dominance in that function (append only on token == paramMarker of a (*Scanner).scan result, recording that token's position) + constant agreement with the lexer's byte table (initTokenByte('?', paramMarker)) + nil-error dominance in handleStmtPrepare",
          "Agreement by construction: the placeholders reported are the parameter-marker tokens of the lexer the SQL grammar itself reads, so string literals, quoted identifiers and comments are handled exactly as the grammar handles them. A private scanner in CalcParams is reported. What the lexer accepts (its own correctness, sql_mode dependent lexing such as ANSI_QUOTES) is not examined; markers inside /*! */ version comments are refused by the code.",
          "", "§9 C14"),
@@ -105,7 +108,6 @@ NA = {
  "C01": "Pruned index sets versus placement of every key relative to range/calendar boundaries is arithmetic over values; no structural clause that is both necessary and not a frozen fragment.",
  "C02": "Result-multiset equivalence over data and queries; no structural necessary condition beyond what the type system enforces.",
  "C08": "Numerical equality with a Java reference implementation (UTF-16 code units, 32-bit wraparound).",
- "C13": "Value equality per column type between text and binary protocol rows.",
  "C36": "Metamorphic equality of the fingerprint over statement variants is a property of string transformations.",
 }
 
